@@ -1,5 +1,6 @@
 import H3.Model.QuinnAdapter
 import H3.Gen.QuinnTables
+import H3.Props.C18
 /-! # C17 — the Quinn adapter moves bytes, identifiers and errors faithfully
 
 *Partial by construction*: only the adapter's own logic (`h3-quinn/src/lib.rs`, `WriteBuf` in
@@ -1294,5 +1295,24 @@ theorem C17_sites_match_source :
     H3.Gen.QuinnTables.wrapTable.length = wrapTable.length ∧
     H3.Gen.QuinnTables.siteTable = siteTable := by
   decide
+
+/-- `SendDatagramHandler::send_datagram` hands Quinn `buf.copy_to_bytes(buf.remaining())`: `remaining()` bytes read
+    chunk after chunk (the default `copy_to_bytes` is `put(self.take(len))`). -/
+def handedToQuinn (e : H3.Datagram.EncM) : Bytes := H3.Datagram.drainM (e.remaining + 1) e
+
+/-- **What Quinn is handed is the whole datagram, however the caller's payload `Buf` is chunked.** For every request
+    stream id below 2^62 divisible by four and every payload given as any list of non-empty chunks, the `Bytes` passed to
+    `quinn::Connection::send_datagram` is `varint(sid/4) ‖ payload` (the model's `datagramWire`), and its length is the
+    `remaining()` the adapter asked for - so Quinn's verdict `TooLarge` (length > `max_datagram_size()`, a parameter of
+    the environment) is a verdict on the whole encoded datagram, never on a prefix of it. -/
+theorem C17_datagram_handed_whole (sid : Nat) (hs : sid < 2^62) (h4 : sid % 4 = 0)
+    (cs : List Bytes) (hne : ∀ c ∈ cs, c ≠ []) :
+    handedToQuinn (H3.Datagram.encodeM sid cs) = datagramWire (H3.Varint.encode (sid / 4)) cs.flatten ∧
+    (handedToQuinn (H3.Datagram.encodeM sid cs)).length = (H3.Datagram.encodeM sid cs).remaining := by
+  obtain ⟨_, _, hr, _, hd, _⟩ := H3.Props.C18.C18_payload_chunking_independent sid hs h4 cs hne
+  refine ⟨by simpa [handedToQuinn, datagramWire] using hd, ?_⟩
+  rw [handedToQuinn, hd, hr]
+
+example : handedToQuinn (H3.Datagram.encodeM 8 [[1, 2], [3]]) = [2, 1, 2, 3] := by decide
 
 end H3.Props.C17
